@@ -429,7 +429,7 @@ def $gen($a):
 SPEC = Spec(
     prop="C09",
     rules=[r_collectives, r_nocomm, r_tags, r_names, r_forwarded, r_placement, r_deps, r_name_table],
-    floors={"R09-COLLECTIVES": 8, "R09-NOCOMM": 7, "R09-TAGS": 5, "R09-NAMES": 6,
+    floors={"R09-COLLECTIVES": 7, "R09-NOCOMM": 4, "R09-TAGS": 4, "R09-NAMES": 5,
             "R09-PLACEMENT": 4},
     explanation=(
         "Decides code-shape conditions without which the invariants cannot hold, "
